@@ -101,8 +101,8 @@ def run(v):
 
 
 def selftest():
-    rates = {"exc": 3, "rec": 5, "plt": 11, "prb": 13, "prc": 17, "gaunt": 2, "tcx": {}, "bmp": {"d0": 2, "d1": 3, "he1": 4, "c5": 5, "c6": 6},
-             "bes": {"d0": 25, "d1": 27, "he1": 29, "c5": 31, "c6": 33}, "bcx": [23, 27]}
+    rates = {"exc": 3, "rec": 5, "plt": 11, "prb": 13, "prc": 17, "gaunt": 2, "tcx": {}, "bmp": {"d0": [2, 5], "d1": [3, 6], "he1": [4, 7], "c5": [5, 8], "c6": [6, 9]},
+             "bes": {"d0": 25, "d1": 27, "he1": 29, "c5": 31, "c6": 33}, "bcx": [23, 27, 31]}
     rec = {"model": "bes", "dens": {"d0": -9, "d1": 2, "he1": -9, "c5": -9, "c6": -9}, "temp": {"d0": 3, "d1": 3, "he1": 3, "c5": 3, "c6": 3}, "ne": 2, "te": 3, "nb": 4,
            "raises": False, "beam_total": [4 * 2 * 27, 1], "needs": [], "rates": rates, "zeff": [2, 2], "nion": 2,
            "species": {"d0": ["d", 0, 1], "d1": ["d", 1, 1], "he1": ["he", 1, 2], "c5": ["c", 5, 6], "c6": ["c", 6, 6]}}
